@@ -22,12 +22,14 @@ GEN_CFGS = {
     "quick": ["DirectiveTree_quick2.cfg", "DirectiveTree_quick3.cfg"],
     "thorough": ["DirectiveTree_quick2.cfg", "DirectiveTree_quick3.cfg",
                  "DirectiveTree_thorough2.cfg", "DirectiveTree_thorough3.cfg",
-                 "DirectiveTree_thorough4.cfg"],
+                 "DirectiveTree_thorough4.cfg", "DirectiveTree_thorough5.cfg"],
 }
 # skeletons named in each generator cfg (cross-checked against TLC's count of
 # initial states)
 CFG_SKELS = {"DirectiveTree_quick2.cfg": "ABCDE", "DirectiveTree_quick3.cfg": "G",
-             "DirectiveTree_thorough3.cfg": "ABCEF", "DirectiveTree_thorough2.cfg": "F", "DirectiveTree_thorough4.cfg": "G"}
+             "DirectiveTree_thorough2.cfg": "F", "DirectiveTree_thorough3.cfg": "BCEF",
+             "DirectiveTree_thorough4.cfg": "G", "DirectiveTree_thorough5.cfg": "G",
+             "DirectiveTree_smoke.cfg": "B"}
 ST_CODE = {"accepted": 1, "refused": 0, "error": 0}
 
 
@@ -222,9 +224,51 @@ def gfortran_anchor(samples, tmp, procs):
     return res
 
 
+# ------------------------------------------------- trace-corruption (binding)
+def _walk(n):
+    yield n
+    for ch in n["body"]:
+        yield from _walk(ch)
+
+
+def corrupt_kind(trees, cases):
+    '''Flip one recorded field: the first recorded real tree that has an
+    `omp do` inside an `omp parallel` gets its parallel region recorded as a
+    target region.  Valid must reject it (OmpDoOutsideParallel).'''
+    used = {c[2] for c in cases if c[2]}
+    for i, t in enumerate(trees, 1):
+        if i not in used:
+            continue
+        for n in _walk(t):
+            if n["k"] == "omp_parallel" and any(m["k"] == "omp_do" for m in _walk(n)):
+                n["k"] = "omp_target"
+                return
+    raise core.MachineryError("corruption test: no tree to corrupt")
+
+
+def corrupt_collapse(trees, cases):
+    '''Flip one recorded field: a written `omp do` over an imperfect nest is
+    recorded with collapse(2).'''
+    used = {c[2] for c in cases if c[2]}
+    for i, t in enumerate(trees, 1):
+        if i not in used:
+            continue
+        for n in _walk(t):
+            if n["k"] == "omp_do" and n["c"] == 0 and n["body"] and \
+                    len(n["body"][0]["body"]) == 2:
+                n["c"] = 2
+                return
+    raise core.MachineryError("corruption test: no tree to corrupt")
+
+
+CORRUPTIONS = {"kind": corrupt_kind, "collapse": corrupt_collapse}
+
+
 # ------------------------------------------------------------------------ run
 def run(tier, corrupt=None):
     core.setup_psyclone_env()
+    if os.environ.get("PV_C10_CORRUPT"):    # binding demonstration only
+        corrupt = CORRUPTIONS[os.environ["PV_C10_CORRUPT"]]
     out = core.Outcome("C10", tier, "model_checking", matchers=MATCHERS)
     dev = int(os.environ.get("PV_C10_PROCS", "0"))
     procs = dev or core.NCPU
@@ -234,7 +278,11 @@ def run(tier, corrupt=None):
     hists = [(s, []) for s in sorted(rp.SKELETONS)]
     nskel = len(hists)
     gen_states = {}
-    for cfg in GEN_CFGS[tier]:
+    cfgs = GEN_CFGS[tier]
+    if os.environ.get("PV_C10_CFGS"):       # development / binding demos only
+        cfgs = os.environ["PV_C10_CFGS"].split(",")
+        cov["exhaustive"] = False
+    for cfg in cfgs:
         h, res = generate(cfg, procs)
         gen_states[cfg] = res.distinct
         cov["states"] += res.distinct
@@ -268,8 +316,7 @@ def run(tier, corrupt=None):
             last = r["steps"][-1] if r["steps"] else "none"
             cnt[f"{last}/{r['gen']}"] += 1
         cov["outcomes"] = dict(sorted(cnt.items()))
-        cov["unsupported"] = sum(1 for r in recs if r["gen"] in ("unsupported",
-                                                                  "unresolved"))
+        cov["unsupported"] = sum(1 for r in recs if r["gen"] in ("unsupported", "unresolved"))
         cov["refusal_changed_tree"] = sum(1 for r in recs if r["rct"])
         cov["writer_other_errors"] = sum(1 for r in recs if r["gen"] == "error")
         cov["histories"] = len(hists)
@@ -281,7 +328,8 @@ def run(tier, corrupt=None):
             raise core.MachineryError("more than 20% of the cases are unsupported")
         rules = collections.Counter()
         shown = set()
-        for idx in sorted(verdicts):
+        # shortest histories first: the recorded example of a finding is minimal
+        for idx in sorted(verdicts, key=lambda i: (len(hists[i][1]), i)):
             skel, ops = hists[idx]
             for rule in sorted(verdicts[idx], key=lambda x: (x["r"], x["k"], x["a"])):
                 case = describe(skel, ops, rule, recs[idx])
